@@ -9,6 +9,7 @@ import (
 	"io"
 	"os"
 	"os/signal"
+	"strconv"
 	"strings"
 	"sync"
 	"sync/atomic"
@@ -1207,18 +1208,42 @@ func (vx *Vaxis) QueryColor(c Color) Color {
 	}
 	vx.tw.WriteStringLocked(tparm(osc4, p[0]))
 	resp := <-vx.chColor
-	var r, g, b int
 	prefix := fmt.Sprintf("4;%v;", p[0])
-	_, err := fmt.Sscanf(resp, prefix+"rgb:%x/%x/%x", &r, &g, &b)
-	if err != nil {
-		log.Error("QueryColor: failed to parse the OSC 4 response: %s", err)
+	col, ok := parseColorReply(resp, prefix)
+	if !ok {
+		log.Error("QueryColor: failed to parse the OSC 4 response: %s", resp)
 		return Color(0)
 	}
-	// The returned value can in principle be 16 bits per channel, however
-	// we are not aware of any terminal that would do this, foot for
-	// instance just repeats the same 8 bits twice. Hence we only take the
-	// lower 8 bits.
-	return RGBColor(uint8(r), uint8(g), uint8(b))
+	return col
+}
+
+// parseColorReply parses the payload of an OSC 4 / 10 / 11 reply,
+// prefix followed by "rgb:<red>/<green>/<blue>". Each channel has one to
+// four hexadecimal digits and is scaled to 16 bits the way XParseColor
+// reads h, hh, hhh and hhhh; a Color keeps the high 8 bits of each
+// channel ("ff", "ffff" and "f" are all 255, "1234" is 0x12).
+func parseColorReply(resp string, prefix string) (Color, bool) {
+	if !strings.HasPrefix(resp, prefix+"rgb:") {
+		return Color(0), false
+	}
+	channels := strings.Split(strings.TrimPrefix(resp, prefix+"rgb:"), "/")
+	if len(channels) != 3 {
+		return Color(0), false
+	}
+	var rgb [3]uint8
+	for i, ch := range channels {
+		n := len(ch)
+		if n < 1 || n > 4 {
+			return Color(0), false
+		}
+		v, err := strconv.ParseUint(ch, 16, 16)
+		if err != nil {
+			return Color(0), false
+		}
+		max := uint64(1)<<(4*n) - 1
+		rgb[i] = uint8(v * 0xFFFF / max >> 8)
+	}
+	return RGBColor(rgb[0], rgb[1], rgb[2]), true
 }
 
 // QueryForeground queries the host terminal for foreground color and returns
@@ -1236,14 +1261,12 @@ func (vx *Vaxis) QueryForeground() Color {
 	}
 	vx.tw.WriteStringLocked(osc10)
 	resp := <-vx.chFg
-	var r, g, b int
-	_, err := fmt.Sscanf(resp, "10;rgb:%x/%x/%x", &r, &g, &b)
-	if err != nil {
-		log.Error("QueryForeground: failed to parse the OSC 10 response: %s", err)
+	col, ok := parseColorReply(resp, "10;")
+	if !ok {
+		log.Error("QueryForeground: failed to parse the OSC 10 response: %s", resp)
 		return Color(0)
 	}
-	// Similar to QueryColor above.
-	return RGBColor(uint8(r), uint8(g), uint8(b))
+	return col
 }
 
 // QueryBackground queries the host terminal for background color and returns
@@ -1261,14 +1284,12 @@ func (vx *Vaxis) QueryBackground() Color {
 	}
 	vx.tw.WriteStringLocked(osc11)
 	resp := <-vx.chBg
-	var r, g, b int
-	_, err := fmt.Sscanf(resp, "11;rgb:%x/%x/%x", &r, &g, &b)
-	if err != nil {
-		log.Error("QueryBackground: failed to parse the OSC 11 response: %s", err)
+	col, ok := parseColorReply(resp, "11;")
+	if !ok {
+		log.Error("QueryBackground: failed to parse the OSC 11 response: %s", resp)
 		return Color(0)
 	}
-	// Similar to QueryColor above.
-	return RGBColor(uint8(r), uint8(g), uint8(b))
+	return col
 }
 
 func (vx *Vaxis) sendQueries() {
